@@ -55,14 +55,84 @@ def gen_case(seed, tier):
         prog = prog[:n_ops * 3]
         prog = spice(rng, prog, ci, mfs)
         progs['c%d' % ci] = prog
+    target = 'cache'
+    if rng.random() < 0.3:
+        target = rng.choice(('deque', 'index', 'fanout'))
+        big_n = mfs + 20
+        progs = {}
+        for ci in range(nclients):
+            progs['c%d' % ci] = [gen_other_op(rng, target, ci, j, big_n) for j in range(n_ops)]
     holder = (not conc_run) and rng.random() < 0.2
-    cfg = {'settings': settings, 'target': 'cache', 'topology': rng.choice(('shared', 'own', 'procs')) if conc_run else 'procs',
+    if target == 'deque':
+        settings = {}
+    if target == 'index':
+        settings = {}
+    if target == 'fanout':
+        settings = {k: v for k, v in settings.items() if k in ('disk_min_file_size', 'cull_limit', 'eviction_policy', 'statistics')}
+    cfg = {'settings': settings, 'target': target, 'mfs': mfs, 'maxlen': rng.choice((None, 2, 3)), 'shards': rng.choice((2, 3)), 'topology': rng.choice(('shared', 'own', 'procs')) if conc_run else 'procs',
            'sched': rng.choice(({'kind': 'uniform'}, {'kind': 'sticky', 'p': 0.8})), 'clock': {'mode': 'frozen'},
            'yield_clock': False, 'dircollide': rng.random() < 0.5, 'timeout': 0.05 if holder else 60, 'conc': conc_run}
     if holder:
         progs['h'] = [{'op': 'txn', 'retry': True, 'body': [{'op': 'sleep', 'dt': rng.choice((0.01, 1.0, 5.0))}]}
                       for _ in range(rng.randint(1, 3))]
     return {'seed': seed, 'cfg': cfg, 'progs': progs, 'faults': []}
+
+
+def gen_other_op(rng, target, ci, j, big_n):
+    v = c05.uniq_value(rng, ci, j, big_n)
+    if target == 'deque':
+        name = rng.choice(('append', 'append', 'appendleft', 'dpop', 'dpopleft', 'dpeek', 'dlist', 'txn'))
+        if name == 'txn':
+            body = [{'op': rng.choice(('append', 'appendleft')), 'v': c05.uniq_value(rng, ci, j * 10 + b, big_n)} for b in range(rng.randint(1, 3))]
+            body.append({'op': rng.choice(('dpop', 'dpopleft'))})
+            blk = {'op': 'txn', 'body': body}
+            if rng.random() < 0.5:
+                blk['raise_at'] = rng.randint(0, len(body))
+                blk['raise_kind'] = rng.choice(('exc', 'base'))
+            return blk
+        op = {'op': name}
+        if name.startswith('append'):
+            op['v'] = v
+        return op
+    k = rng.choice(('a', 'b', 'c', 7))
+    if target == 'index':
+        name = rng.choice(('setitem', 'setitem', 'getitem', 'delitem', 'ipop', 'setdefault', 'popitem', 'items', 'txn'))
+        if name == 'txn':
+            body = [{'op': 'setitem', 'k': rng.choice(('a', 'b')), 'v': c05.uniq_value(rng, ci, j * 10 + b, big_n)} for b in range(rng.randint(1, 3))]
+            body.append({'op': 'popitem', 'last': rng.random() < 0.5})
+            blk = {'op': 'txn', 'body': body}
+            if rng.random() < 0.5:
+                blk['raise_at'] = rng.randint(0, len(body))
+                blk['raise_kind'] = rng.choice(('exc', 'base'))
+            return blk
+        op = {'op': name}
+        if name not in ('popitem', 'items'):
+            op['k'] = k
+        if name in ('setitem', 'setdefault'):
+            op['v'] = v
+        if name == 'ipop':
+            op['default'] = 'dflt'
+        return op
+    name = rng.choice(('set', 'set', 'add', 'incr', 'get', 'pop', 'delete', 'touch', 'clear', 'expire', 'evict', 'cull', 'setitem', 'delitem', 'txn'))
+    if name == 'txn':
+        body = [{'op': 'set', 'k': rng.choice(('a', 'b', 'c')), 'v': c05.uniq_value(rng, ci, j * 10 + b, big_n), 'retry': True} for b in range(rng.randint(1, 3))]
+        blk = {'op': 'txn', 'body': body}
+        if rng.random() < 0.5:
+            blk['raise_at'] = rng.randint(0, len(body))
+            blk['raise_kind'] = rng.choice(('exc', 'base'))
+        return blk
+    op = {'op': name}
+    if name in ('set', 'add', 'setitem'):
+        op['v'] = v
+        if rng.random() < 0.3 and name != 'setitem':
+            op['expire'] = rng.choice((0, 1, 100))
+        if rng.random() < 0.3 and name != 'setitem':
+            op['tag'] = 't1'
+    if name in ('set', 'add', 'incr', 'get', 'pop', 'delete', 'touch', 'setitem', 'delitem'):
+        op['k'] = 'n' if name == 'incr' else k
+    if name == 'evict':
+        op['tag'] = 't1'
+    return op
 
 
 def spice(rng, prog, ci, mfs):
@@ -93,12 +163,36 @@ def run_case(case):
     probes = {}
 
     def inspect(world, main, targets, out):
-        fresh = world.dc.Cache(main.directory)
-        out['audit'] = audit(main.directory)
-        out['check'] = check_messages(fresh)
-        out['len'] = len(fresh)
-        out['volume'] = fresh.volume()
-        fresh.close()
+        kind = cfg.get('target', 'cache')
+        if kind == 'fanout':
+            dirs = [sh.directory for sh in main._shards]
+        elif kind in ('deque', 'index'):
+            dirs = [main.cache.directory]
+        else:
+            dirs = [main.directory]
+        problems, empties, info = [], [], {'rows': 0, 'size': 0}
+        msgs = []
+        length = 0
+        volume = 0
+        for d in dirs:
+            fresh = world.dc.Cache(d)
+            p, e, i = audit(d)
+            problems += p
+            empties += e
+            info['rows'] += i.get('rows', 0)
+            info['size'] += i.get('size', 0)
+            msgs += check_messages(fresh)
+            length += len(fresh)
+            volume += fresh.volume()
+            fresh.close()
+        out['audit'] = (problems, empties, info)
+        out['check'] = msgs
+        out['len'] = length
+        out['volume'] = volume
+
+    def prepare(world, main):
+        if cfg.get('target') in ('deque', 'index'):
+            main.cache.reset('disk_min_file_size', cfg.get('mfs', 8))
 
     # surrogate values cannot be described in JSON-safe specs: patch them in here
     c = copy.deepcopy(case)
@@ -107,7 +201,7 @@ def run_case(case):
             if op.get('surrogate'):
                 n = op['v']['big'][1]
                 op['v'] = '\ud800' * max(n, 1)
-    out = conc.run_and_inspect(c, inspect)
+    out = conc.run_and_inspect(c, inspect, prepare=prepare)
     violations = out['violations']
     base = {'digest': out.get('digest'), 'steps': out.get('steps', 0), 'switches': out.get('switches', 0),
             'fired': out.get('fired', {}), 'virtual_s': out.get('virtual_s', 0.0), 'picks': out.get('picks')}
